@@ -5,6 +5,7 @@
 //! c13produce : <form> <v>                          -> <status> <text>   (text = what the shell printed)
 //! c13consume : <reader> <text>                     -> <status> <field>*
 //!   readers: arg (fields: argc, $1) | asg (x) | var:NAME | arr:NAME (k v)* | alias:NAME | trap:SIG
+//! c13decode : <text> -> O <bytes as hex text> | E   (escape::expand_backslash_escapes, ANSI-C mode)
 //! Every case runs in a fresh in-process shell whose working directory is a scratch directory.
 use crate::sh::new_shell;
 use crate::util::{hex, panic_msg, unhex_str};
@@ -273,9 +274,33 @@ fn do_consume(rt: &tokio::runtime::Runtime, c: &[String]) -> String {
     format!("{} {}", r.status, out.join(" "))
 }
 
+fn do_decode(c: &[String]) -> String {
+    let text = unhex_str(c.first().map(|s| s.as_str()).unwrap_or("-"));
+    match brush_core::escape::expand_backslash_escapes(
+        &text,
+        brush_core::escape::EscapeExpansionMode::AnsiCQuotes,
+    ) {
+        Ok((bytes, _)) => {
+            let h: String = bytes.iter().map(|b| format!("{b:02x}")).collect();
+            format!("{} {}", hex(b"O"), hex(h.as_bytes()))
+        }
+        Err(_) => hex(b"E"),
+    }
+}
+
 pub fn run(sub: &str, cases: &[Vec<String>]) -> bool {
-    if !matches!(sub, "c13quote" | "c13produce" | "c13consume") {
+    if !matches!(sub, "c13quote" | "c13produce" | "c13consume" | "c13decode") {
         return false;
+    }
+    if sub == "c13decode" {
+        for c in cases {
+            let r = std::panic::catch_unwind(std::panic::AssertUnwindSafe(|| do_decode(c)));
+            match r {
+                Ok(l) => println!("{l}"),
+                Err(e) => println!("PANIC {}", hex(panic_msg(&e).as_bytes())),
+            }
+        }
+        return true;
     }
     let rt = tokio::runtime::Builder::new_multi_thread()
         .worker_threads(2)
